@@ -317,13 +317,19 @@ func (ir *ifdReader) fastRead(n int) (buf []byte, err error) {
 // ReadUint16 reads a uint16 from an ifdReader.
 func (ir *ifdReader) readUint16(ifd ifds.Ifd) (uint16, error) {
 	buf, err := ir.fastRead(2)
-	return ifd.ByteOrder.Uint16(buf), err
+	if err != nil {
+		return 0, err
+	}
+	return ifd.ByteOrder.Uint16(buf), nil
 }
 
 // ReadUint32 reads a uint32 from an ifdReader.
 func (ir *ifdReader) readUint32(ifd ifds.Ifd) (uint32, error) {
 	buf, err := ir.fastRead(4)
-	return ifd.ByteOrder.Uint32(buf), err
+	if err != nil {
+		return 0, err
+	}
+	return ifd.ByteOrder.Uint32(buf), nil
 }
 
 func tagFromBuffer(ifd ifds.Ifd, buf []byte) (t Tag, err error) {
